@@ -1,0 +1,32 @@
+//go:build verif
+
+package ed25519
+
+import "github.com/cloudflare/pat-go/ed25519/internal/edwards25519"
+
+// Hooks for the /verif correspondence harness (compiled only with -tags verif): the scalar
+// arithmetic of the internal package, which is not importable from outside.
+
+// VerifScalarReduce reduces a 64-byte little-endian value modulo the group order.
+func VerifScalarReduce(wide []byte) []byte {
+	return edwards25519.NewScalar().SetUniformBytes(wide).Bytes()
+}
+
+// VerifScalarMulAdd returns a*b + c modulo the group order (operands are reduced first).
+func VerifScalarMulAdd(a, b, c []byte) []byte {
+	x := edwards25519.NewScalar().SetBytes(a)
+	y := edwards25519.NewScalar().SetBytes(b)
+	z := edwards25519.NewScalar().SetBytes(c)
+	return edwards25519.NewScalar().MultiplyAdd(x, y, z).Bytes()
+}
+
+// VerifScalarCanonical reports whether a 32-byte string is accepted as a canonical scalar.
+func VerifScalarCanonical(x []byte) bool {
+	_, err := edwards25519.NewScalar().SetCanonicalBytes(x)
+	return err == nil
+}
+
+// VerifScalarInverse returns the inverse of a (reduced) scalar modulo the group order.
+func VerifScalarInverse(a []byte) []byte {
+	return edwards25519.NewScalar().SetBytes(a).ModInverse().Bytes()
+}
